@@ -165,6 +165,7 @@ theorem Tracks.congr (ha : Tracks a f t) (hfg : ∀ x, f x = g x) : Tracks a g t
   have : f = g := funext hfg
   rw [← this]; exact ha
 
+
 theorem Dual.lt_iff (a b : Dual ℝ) : a < b ↔ a.v < b.v := Iff.rfl
 @[simp] theorem Dual.zero_v : (0 : Dual ℝ).v = 0 := rfl
 @[simp] theorem Dual.one_v : (1 : Dual ℝ).v = 1 := rfl
@@ -174,6 +175,30 @@ theorem Dual.lt_iff (a b : Dual ℝ) : a < b ↔ a.v < b.v := Iff.rfl
 theorem Tracks.ite (c : Prop) [Decidable c] (ha : Tracks a f t) (hb : Tracks b g t) :
     Tracks (if c then a else b) (fun x => if c then f x else g x) t := by
   split <;> assumption
+
+/-- a branch decided by a strict inequality between *values* is locally constant: taken … -/
+theorem Tracks.ite_lt_pos {c d : Dual ℝ} {F G : ℝ → ℝ} (ha : Tracks a f t) (hb : Tracks b g t) (hlt : f t < g t)
+    (hc : Tracks c F t) : Tracks (if a < b then c else d) (fun x => if f x < g x then F x else G x) t := by
+  have hv : a < b := by rw [Dual.lt_iff, ha.1, hb.1]; exact hlt
+  rw [if_pos hv]
+  have hev : (fun x => if f x < g x then F x else G x) =ᶠ[nhds t] F := by
+    have := (ha.2.continuousAt.prodMk hb.2.continuousAt).eventually
+      (isOpen_lt continuous_fst continuous_snd |>.mem_nhds (show ((f t, g t) : ℝ × ℝ) ∈ {p : ℝ × ℝ | p.1 < p.2} from hlt))
+    filter_upwards [this] with x hx
+    exact if_pos hx
+  exact ⟨by rw [hc.1]; exact (if_pos hlt).symm, hc.2.congr_of_eventuallyEq hev⟩
+
+/-- … or not taken -/
+theorem Tracks.ite_lt_neg {c d : Dual ℝ} {F G : ℝ → ℝ} (ha : Tracks a f t) (hb : Tracks b g t) (hlt : g t < f t)
+    (hd : Tracks d G t) : Tracks (if a < b then c else d) (fun x => if f x < g x then F x else G x) t := by
+  have hv : ¬ a < b := by rw [Dual.lt_iff, ha.1, hb.1]; exact not_lt.mpr (le_of_lt hlt)
+  rw [if_neg hv]
+  have hev : (fun x => if f x < g x then F x else G x) =ᶠ[nhds t] G := by
+    have := (hb.2.continuousAt.prodMk ha.2.continuousAt).eventually
+      (isOpen_lt continuous_fst continuous_snd |>.mem_nhds (show ((g t, f t) : ℝ × ℝ) ∈ {p : ℝ × ℝ | p.1 < p.2} from hlt))
+    filter_upwards [this] with x hx
+    exact if_neg (not_lt.mpr (le_of_lt hx))
+  exact ⟨by rw [hd.1]; exact (if_neg (not_lt.mpr (le_of_lt hlt))).symm, hd.2.congr_of_eventuallyEq hev⟩
 
 /-! ### vectors -/
 
